@@ -7,6 +7,7 @@ package models
 
 import (
 	"hash"
+	"io"
 	"io/fs"
 	"sort"
 
@@ -182,13 +183,52 @@ func model_dirhash_HashDir(dir, prefix string, h dirhash.Hash) (string, error) {
 	for _, e := range ents {
 		key += e.name + "\x00" + e.data + "\x00"
 	}
+	return hashToken(key), nil
+}
+
+func hashToken(key string) string {
 	for i, k := range hashSeen {
 		if k == key {
-			return hashNames[i], nil
+			return hashNames[i]
 		}
 	}
 	hashSeen = append(hashSeen, key)
-	return hashNames[len(hashSeen)-1], nil
+	return hashNames[len(hashSeen)-1]
+}
+
+// model_dirhash_Hash1: the same injective token for code that lists the files itself
+// (dirhash.DirFiles runs as real code over the model filesystem) and supplies its own opener.
+func model_dirhash_Hash1(files []string, open func(string) (io.ReadCloser, error)) (string, error) {
+	files = append([]string(nil), files...)
+	sort.Strings(files)
+	key := ""
+	for _, f := range files {
+		for i := 0; i < len(f); i++ {
+			if f[i] == '\n' {
+				return "", &hashErr{"dirhash: filenames with newlines are not supported"}
+			}
+		}
+		r, err := open(f)
+		if err != nil {
+			return "", err
+		}
+		data := ""
+		buf := make([]byte, 64)
+		for {
+			n, err := r.Read(buf)
+			data += string(buf[:n])
+			if err == io.EOF || (n == 0 && err == nil) {
+				break
+			}
+			if err != nil {
+				r.Close()
+				return "", err
+			}
+		}
+		r.Close()
+		key += f + "\x00" + data + "\x00"
+	}
+	return hashToken(key), nil
 }
 
 // ---- sort.Slice over the slice types go-slug sorts ----
